@@ -126,6 +126,12 @@ func detScripts(tier string) []string {
 		`return sort(["b", "B", "a", "A", "b"], true);`,
 		`return [sort([1, "1", 1.0]), reverse(["x", "X"], true)];`,
 		`s = {}; foreach i in 1..5 { s = {"n": i, "prev": s}; } return string(s);`,
+		// keys which are not single tokens (negated numbers) with values which print alike; numbers among strings which
+		// print between them: one compiled program, one order
+		`return {-1: "error", -2: "error", 0: "ok"};`, `h = {-100000: "low", -200000: "low", -300000: "low"}; return [string(h), keys(h)];`, `return {-1.5: 1, -2.5: 1, -(3): 1, -(4): 1};`,
+		`h = {"5": 1, 9: 2, 10: 3}; r = ""; foreach k, v in h { r = r + string(k) + ","; } return [keys(h), string(h), r, len(h)];`,
+		`h = {"10+": 1, 2: 2, 10: 3, 1: 4, "1a": 5}; r = ""; foreach k, v in h { r = r + string(k) + ","; } return [keys(h), string(h), r];`,
+		`function f(k) { return {k: 1, "7": 2, 8: 3, 70: 4}; } return [string(f(9)), string(f("9")), keys(f(100))];`,
 		// run-time errors which mention the values involved: the text is the same every time
 		`return {[1, 2]: 1};`, `h = {"a": 1}; return h[[1, [2]]];`, `h = {"a": 1}; return h[{"k": [1]}];`, `return {{"a": 1}: 2};`, `return {true: 1};`, `return {null: 1};`,
 		`return [1, 2] + {"a": 1};`, `return [1] < [2];`, `return {"a": [1]} ~= /a/;`, `return -[1, 2];`, `return [1, 2][[0]];`, `return "abc"[{"a": 1}];`, `foreach x in {"a": [1]} { return x + 1; }`,
